@@ -3,6 +3,7 @@ package actionlint
 import (
 	"fmt"
 	"io"
+	"sort"
 	"time"
 )
 
@@ -64,7 +65,17 @@ func (v *Visitor) Visit(n *Workflow) error {
 		t = time.Now()
 	}
 
+	// Visit jobs in the order of their positions in the source. Order of map iteration is random so
+	// results depending on the visiting order would not be deterministic otherwise.
+	jobs := make([]*Job, 0, len(n.Jobs))
 	for _, j := range n.Jobs {
+		jobs = append(jobs, j)
+	}
+	sort.Slice(jobs, func(i, j int) bool {
+		return jobs[i].Pos.IsBefore(jobs[j].Pos)
+	})
+
+	for _, j := range jobs {
 		if err := v.visitJob(j); err != nil {
 			return err
 		}
